@@ -60,6 +60,7 @@ class Rt:
         self.inst_real = {}  # instance -> (event object it handles, bus idx, handler index)
         self.hkind = {}      # k -> kind
         self.inst_of_task = {}
+        self.rl_entered = set()
         self.syncstack = {}
         self.act = {}        # (b, e) -> [executor procs]
         self.pending_inst = {}  # (b, e, k) -> [instance ids scheduled, body not yet started]
@@ -417,6 +418,7 @@ class TBus(EventBus):
 
     async def _run_loop(self):
         rt = RT
+        rt.rl_entered.add(asyncio.current_task())
         try:
             await super()._run_loop()
         finally:
@@ -468,7 +470,7 @@ class TBus(EventBus):
             raise
 
     def _start(self):
-        was_running = self._is_running
+        old_task = self._runloop_task
         had_queue = self.event_queue is not None
         if INST.get() is not None:
             # started from inside a handler: the run-loop task inherits a copy of that handler's context (bubus' own
@@ -485,8 +487,17 @@ class TBus(EventBus):
             idle = TIdle()
             idle.bus = self
             self._on_idle = idle
-        if not was_running and self._is_running:
+        if self._runloop_task is not None and self._runloop_task is not old_task:
             RT.rec('rlcreate', b=RT.busidx[self], p=proc(), holds=svc.holds_global_lock.get())
+            task = self._runloop_task
+            rt = RT
+
+            def _never_ran(t, bus=self):
+                # a run-loop task that was cancelled before its first step never enters _run_loop(): its end is recorded here
+                if rt is RT and t.cancelled() and t not in rt.rl_entered:
+                    RT.rec('rlDone', b=RT.busidx[bus], idle=bool(bus._on_idle and bus._on_idle.is_set()), never=True)
+            if task is not None:
+                task.add_done_callback(_never_ran)
 
     async def process_event(self, event, timeout=None):
         rt = RT
